@@ -423,6 +423,8 @@ def __e_dyad_format2(a, b, backend):
         a = a.item()
     if hasattr(b, 'ndim') and b.ndim == 0:
         b = b.item()
+    # a symbol is written with its colon, whatever the size (0$:foo is ":foo", like $:foo)
+    b = f":{b}" if isinstance(b, KGSym) else b
     if safe_eq(int(a), 0):
         return str(b)
     if (backend.is_float(b) and not isinstance(b,int)) and (backend.is_float(a) and not isinstance(a,int)):
@@ -431,7 +433,6 @@ def __e_dyad_format2(a, b, backend):
         p[0] = p[0].rjust(int(a))
         b = ".".join(p)
         return b
-    b = f":{b}" if isinstance(b, KGSym) else b
     r = str(b).ljust(abs(a)) if a >= 0 else str(b).rjust(abs(a))
     return r
 
